@@ -189,7 +189,7 @@ def _model(draw: Any, args: dict) -> dict:
         has_ctor = draw(st.booleans())
         attrs = [namer.fresh("at") for _ in range(draw(st.integers(0, 2)))]
         iattrs = [namer.fresh("ia") for _ in range(draw(st.integers(0, 2)))] if has_ctor else []
-        members: list[dict] = [func("method") for _ in range(draw(st.integers(0, 2)))]
+        members: list[dict] = [func(draw(st.sampled_from(["method", "method", "static", "classmethod"]))) for _ in range(draw(st.integers(0, 2)))]
         pool = list(draw(st.permutations(["run", "reset", "compute"])))
         for mm in members:
             if draw(st.booleans()):
@@ -236,7 +236,10 @@ def render_source(model: dict, style: str) -> str:
     out.append("from __future__ import annotations")
 
     def emit_func(f: dict, ind: str, method: bool) -> None:
-        ps = (["self"] if method else []) + [f"{p}: int" for p in f["params"]]
+        recv = {"method": ["self"], "static": [], "classmethod": ["cls"]}.get(f.get("kind", "method"), ["self"]) if method else []
+        ps = recv + [f"{p}: int" for p in f["params"]]
+        if method and f.get("kind") in {"static", "classmethod"}:
+            out.append(f"{ind}@{'staticmethod' if f['kind'] == 'static' else 'classmethod'}")
         out.append(f"{ind}def {f['name']}({', '.join(ps)}) -> int:")
         if f["doc"]:
             out.extend(doc_literal(render_docstring(style, f["doc"]), ind + "    "))
